@@ -978,6 +978,12 @@ func vsS15() {
 		e.refresh <- nil
 	}
 	e.vFinish("S15", b)
+	if mode == vAuto && useDelay {
+		// the delay ended before the bar finished: the final frame is due (C03), whichever of the two ready
+		// channels (delay over, container done) the container goroutine looks at first
+		last := e.rec.n - 1
+		vAssert(e.rec.n >= 1 && e.rec.w[last] == 1 && e.rec.nl[last] == 1, "S15.final-frame-written-after-the-delay-ended")
+	}
 	if mode == vPlain {
 		vAssert(e.rec.n == 0, "S15.no-output-when-not-a-terminal-and-not-refreshing")
 	}
